@@ -135,6 +135,39 @@ fn rand_col(rng: &mut Rng, size: usize, n: usize, vmax: i64) -> Col {
     (0..size).map(|_| (0..n).map(|_| rng.sym(vmax)).collect()).collect()
 }
 
+/// wide-radix value classes (magnitude corpora): 10 normalised digits of radix 2^b, 11 full i64 range,
+/// 12 boundary mix (+-2^(b-1), 2^(b-1)-1, -2^(b-1)-1, i64 extremes), 13 carry ripple (2^(b-1)-1 repeated, last +1)
+fn wide_col(rng: &mut Rng, size: usize, n: usize, b: usize, class: u64) -> Col {
+    let half: i64 = if b >= 63 { i64::MAX / 2 } else { 1i64 << (b.max(1) - 1) };
+    (0..size)
+        .map(|j| {
+            (0..n)
+                .map(|i| match class {
+                    10 => ((rng.next() as i64) >> (64 - b.max(1) as u32)).clamp(-half, half - 1),
+                    11 => rng.next() as i64,
+                    12 => match rng.below(8) {
+                        0 => half,
+                        1 => -half,
+                        2 => half - 1,
+                        3 => -half - 1,
+                        4 => i64::MAX,
+                        5 => i64::MIN,
+                        6 => -1,
+                        _ => ((rng.next() as i64) >> (64 - b.max(1) as u32)),
+                    },
+                    _ => {
+                        if j + 1 == size && i % 2 == 0 {
+                            half
+                        } else {
+                            half - 1
+                        }
+                    }
+                })
+                .collect()
+        })
+        .collect()
+}
+
 fn col_from_json(v: &Value) -> Col {
     v.as_array().unwrap().iter().map(|l| l.as_array().unwrap().iter().map(|x| x.as_i64().unwrap()).collect()).collect()
 }
@@ -172,8 +205,12 @@ pub fn make_plan(c: &Value, seed: u64) -> Plan {
         _ => (is_big, is_big, is_big),
     };
     let uses_r = b.ends_with("_assign") || b == "encode_coeff_i64" || matches!(b, "lsh_add_into" | "lsh_sub" | "rsh_add_into" | "rsh_sub") || c.get("uses_r").and_then(|v| v.as_bool()).unwrap_or(false);
+    let vclass = gu(c, "vclass", 0);
+    let ab_ = gu(c, "ab", 0) as usize;
+    let rb_ = gu(c, "rb", 0) as usize;
     let da = match c.get("da") {
         Some(v) => col_from_json(v),
+        None if vclass >= 10 => wide_col(&mut rng, asz, na, ab_, vclass),
         None => rand_col(&mut rng, asz, na, vmax),
     };
     let db = match c.get("db") {
@@ -182,6 +219,7 @@ pub fn make_plan(c: &Value, seed: u64) -> Plan {
     };
     let dr = match c.get("dr") {
         Some(v) => col_from_json(v),
+        None if vclass >= 10 => wide_col(&mut rng, rs, n, rb_, vclass),
         None => rand_col(&mut rng, rs, n, vmax),
     };
     let ds = rand_col(&mut rng, 1, n, vmax);
@@ -461,9 +499,21 @@ pub fn run_case(mods: &mut Mods, c: &Value, seed: u64) -> Value {
             }
         }
     }
+    let agree_only = c.get("chk").and_then(|v| v.as_str()) == Some("agree");
     let outs: Vec<Value> = groups
         .into_iter()
         .map(|(who, d, panic)| {
+            if agree_only {
+                // values exceed TLC's native integers: log a 30-bit digest of the outcome instead
+                let mut h: u64 = 0xcbf29ce484222325;
+                for l in d.iter() {
+                    for x in l.iter() {
+                        h = (h ^ (*x as u64)).wrapping_mul(0x100000001b3);
+                        h = (h ^ ((*x >> 64) as u64)).wrapping_mul(0x100000001b3);
+                    }
+                }
+                return json!({"who": who, "d": [[(h >> 34) as i64]], "panic": panic});
+            }
             let dj: Vec<Vec<i64>> = d.iter().map(|l| l.iter().map(|&x| x.clamp(i64::MIN as i128, i64::MAX as i128) as i64).collect()).collect();
             json!({"who": who, "d": dj, "panic": panic})
         })
@@ -483,7 +533,7 @@ pub fn run_case(mods: &mut Mods, c: &Value, seed: u64) -> Value {
         "rs": p.rs,
         "p": {"k": p.k, "limb": p.limb, "part": p.part, "rb": p.rb, "ab": p.ab},
         "shape": {"rcols": p.rcols, "rcol": p.rcol, "acols": p.acols, "acol": p.acol, "bcols": p.bcols, "bcol": p.bcol, "rextra": p.rextra},
-        "ins": ins,
+        "ins": if agree_only { json!({}) } else { Value::Object(ins) },
         "outs": outs,
         "frame": frame,
         "frame_bad": frame_bad,
